@@ -77,7 +77,10 @@ Mpd == /\ e.ev = "mpd"
              THEN Clause("C06.partition", FALSE, [ct |-> "", rep |-> "", kind |-> "", why |-> "periods do not have the AdaptationSets of the single-period MPD / value out of range"])
              ELSE /\ \A a \in 1..Len(e.as) : ASClauses(a)
                   /\ Clause("C06.cont", ContOK(H.cont, [p \in 1..Len(e.pers) |-> [a \in 1..Len(e.as) |-> e.as[a].per[p].pc]]),
-                            [requested |-> H.cont])
+                            [requested |-> H.cont,
+                             signalled |-> { x \in (1..Len(e.pers)) \X (1..Len(e.as)) : e.as[x[2]].per[x[1]].pc },
+                             not_signalled |-> { x \in (2..Len(e.pers)) \X (1..Len(e.as)) : ~e.as[x[2]].per[x[1]].pc },
+                             sets |-> [b \in 1..Len(e.as) |-> e.as[b].rep]])
           /\ Clause("C06.pt", H.mode = "number" => (e.ptok /\ PtOK(e.pers[1].s, e.pers[Len(e.pers)].s, e.pt)),
                     [pt_rel_ms |-> e.pt, last_start |-> e.pers[Len(e.pers)].s, B |-> e.B])
        \* C06.history (the property quantifies over histories): whether a periods value is accepted for an asset / MPD type
